@@ -95,7 +95,7 @@ func (h *History) OfferTxs(b int) {
 		h.lastP = period
 		if period == state.FlipLotteryPeriod {
 			for i := range w.Keys {
-				h.part[i] = i == 0 || r.Float64() < h.O.Participate
+				h.part[i] = (i == 0 && h.O.Participate >= 0) || r.Float64() < h.O.Participate // Participate < 0: nobody, the validation fails
 			}
 		}
 	}
